@@ -112,7 +112,9 @@ Fixpoint rnames (k:nat) (i:nat) : list var :=
 
 (** identifiers a user program may not bind: the lowering's temporaries and the generated
     union-constructor names *)
-Definition reserved (x:var) : bool := String.prefix "_" x || String.prefix "New_" x.
+Definition is_tmp (x:var) : bool := String.prefix "_" x.
+Definition ctor_like (x:var) : bool := String.prefix "New_" x.
+Definition reserved (x:var) : bool := is_tmp x || ctor_like x.
 
 Definition case_struct (uname cname:string) : string := (uname ++ "_" ++ cname)%string.
 Definition ctor_name (uname cname:string) : string := ("New_" ++ case_struct uname cname)%string.
